@@ -21,6 +21,10 @@ fn check(prop: &str, tier: &str) -> i32 {
     match prop {
         "C03" => props_seq::c03(tier),
         "C04" => props_seq::c04(tier),
+        "C07" => props_seq::c07(tier),
+        "C09" => props_seq::c09(tier),
+        "C13" => props_seq::c13(tier),
+        "C15" => props_seq::c15(tier),
         _ => {
             eprintln!("no check for {prop}");
             2
